@@ -35,7 +35,8 @@ inductive StyleErr where
 deriving Repr, BEq, DecidableEq, Inhabited
 
 /-- Which variant of the code is modelled.  `true` = the behaviour of rich 9.10.0 as it stood when
-the defect was found, `false` = the minimally repaired behaviour (see /verif/pending_fixes).
+the defect was found, `false` = the minimally repaired behaviour, which /repo contains now (`fix:` commits c34676b, a639ea2,
+cf948b2; the diffs under /verif/pending_fixes were their proposals).
 The harness passes the flags that match the working tree (`# CODE VARIANT FLAGS` in
 harness/props/c06.py). -/
 structure Variant where
